@@ -34,6 +34,17 @@ def run(ctx):
     ctx.rule("R5", "a resumed thermostatted run keeps its damping time: every engine type that accepts `damp` is rebuilt with the recorded value (shared with C10-R9)")
     from .c10 import _r9_ctor_kwargs
     _r9_ctor_kwargs(ctx, repo, rid="R5")
+    # the thermostatted step by value: O - V - O with two independent noise draws, the Verlet step acting on the thermostatted velocities (shared with C08-R1)
+    from ..assembly import interpreted_verlet_step
+    try:
+        for cls_, ok_, msg_ in interpreted_verlet_step(repo):
+            if "Langevin" not in cls_:
+                continue
+            m_ = repo.mod(MD)
+            ctx.check(ok_, "R2", m_, m_.func(f"{cls_}.one_step"), f"{cls_}.one_step", "O - V - O identities",
+                      f"{cls_}.one_step: thermostat half-step, complete velocity-Verlet step, thermostat half-step (two noise draws), as polynomial identities", f"{cls_}.one_step: {msg_}")
+    except AnalysisError as e_:
+        ctx.note(f"Langevin one_step could not be interpreted ({str(e_)[:100]}); event-word reading only")
 
     ini = md.func("Molecular_Dynamics_Langevin.initialize")
     env = md_env(sym)
